@@ -175,7 +175,7 @@ class Ctx:
         extra = ""
         if c.kind == "proved":
             extra = " obligations=%d discharged=%d backend=%s solver_ms=%.0f" % (c.obligations, c.discharged, c.backend, c.solver_ms)
-        elif c.kind == "bounded":
+        elif c.kind in ("bounded", "crosscheck"):
             extra = " evaluations=%d nontrivial=%d exhaustive=%s" % (c.evaluations, c.nontrivial, c.exhaustive)
         self.log("[%s] %-9s %-7s %s%s %s" % (self.prop, tag, c.kind, c.name, extra, c.detail[:300].replace("\n", " | ")))
         return c
@@ -229,11 +229,14 @@ class Ctx:
         parallel: bool = True,
         max_report: int = 3,
         functions: Optional[List[str]] = None,
+        crosscheck: bool = False,
     ) -> Clause:
         """Run `checker` on every case. `cases` may be lazy; when `budget_s` elapses before it is
         exhausted the clause is recorded as not exhaustive."""
         _CHECKERS[name] = (checker, nontrivial)
-        c = Clause(name=name, kind="bounded", bound=bound, text=text, functions=functions or [])
+        # crosscheck=True: a run-time re-check of clauses that are already proved (replay oracle / engine sanity);
+        # it does not carry any clause of the property on its own and so does not demote a proof-level claim
+        c = Clause(name=name, kind="crosscheck" if crosscheck else "bounded", bound=bound, text=text, functions=functions or [])
         t0 = time.time()
         fails: List = []
         exhausted = True
@@ -324,6 +327,7 @@ class Ctx:
         wall = time.time() - self.t0
         proved = [c for c in self.clauses if c.kind == "proved"]
         bounded = [c for c in self.clauses if c.kind == "bounded"]
+        cross = [c for c in self.clauses if c.kind == "crosscheck"]
         n_obl = sum(c.obligations for c in proved)
         n_dis = sum(c.discharged for c in proved)
         all_proved = bool(proved) and not bounded and not self.not_applicable and all(c.status == "ok" for c in proved)
@@ -342,6 +346,8 @@ class Ctx:
             ", ".join("%s[%d/%d %s %.0fms]" % (c.name, c.discharged, c.obligations, c.backend, c.solver_ms) for c in proved) or "none")
         expl += " BOUNDED clauses (run-time contract on the real function, never counted as proved): %s." % (
             ", ".join("%s[%s; evals=%d; exhaustive=%s]" % (c.name, c.bound, c.evaluations, c.exhaustive) for c in bounded) or "none")
+        if cross:
+            expl += " Run-time cross-checks of proved clauses (replay oracle, not part of the claim): %s." % ", ".join("%s[%s; evals=%d]" % (c.name, c.bound, c.evaluations) for c in cross)
         if self.not_applicable:
             expl += " NOT DECIDED by this technique: %s." % "; ".join(self.not_applicable)
         if self.known_printed:
@@ -360,8 +366,8 @@ class Ctx:
                 "discharged": n_dis,
                 "checker_cmd": "./check %s --tier %s" % (self.prop, self.tier),
                 "trusted_base": self.trusted_base,
-                "evaluations": sum(c.evaluations for c in bounded),
-                "distinct_nontrivial": sum(c.nontrivial for c in bounded),
+                "evaluations": sum(c.evaluations for c in bounded + cross),
+                "distinct_nontrivial": sum(c.nontrivial for c in bounded + cross),
                 "rule": "bounded clauses: cases enumerated by the generator named in each clause's bound; distinct by construction; "
                 "non-trivial per the clause's own predicate (default: every case)",
                 "samples": samples[:12] or [{"note": "no bounded cases in this run"}],
